@@ -106,6 +106,26 @@ fn run_v<V: Fv>(ctx: &Ctx, rep: &mut Report) {
             valids.push((Ty::Sig, V::sig_to_bytes(&sig)));
         }
     }
+    // SEMANTIC extensions of valid encodings: the secret key followed by an 8-bit section holding
+    // its own G (an "expanded key" some tools export), by F again, by its public key; the public
+    // key and the signature followed by their own bodies: all have the wrong length
+    for k in &keys {
+        let b0 = V::basis(&k.sk);
+        let skb = V::sk_to_bytes(&k.sk);
+        let pkb = V::pk_to_bytes(&k.pk);
+        let sect = |p: &Vec<i16>, neg: bool| -> Vec<u8> { p.iter().map(|&x| (if neg { -x } else { x }) as i8 as u8).collect() };
+        for (name, tail) in [("G-section", sect(&b0[2], false)), ("F-section", sect(&b0[3], true)), ("minus-G-section", sect(&b0[2], true)), ("public-key", pkb[1..].to_vec()), ("whole-key-again", skb[1..].to_vec())] {
+            let mut e = skb.clone();
+            e.extend_from_slice(&tail);
+            check_one::<V>(Ty::Sk, &format!("sk-extended-by-{}", name), &e, rep);
+            check_one::<V>(Ty::Sk, &format!("sk-extended-by-{}-retried", name), &e, rep);
+            rep.count("semantic_extensions", 1);
+        }
+        let mut e = pkb.clone();
+        e.extend_from_slice(&pkb[1..]);
+        check_one::<V>(Ty::Pk, "pk-extended-by-itself", &e, rep);
+        rep.count("semantic_extensions", 1);
+    }
     // other valid completions of the same (f,g): F' = F + c x^j f (G' = G + c x^j g), in range:
     // well-formed and different strings that a decoder must not map onto one object
     for k in &keys {
@@ -277,6 +297,7 @@ pub fn canonical(ctx: &Ctx, rep: &mut Report) {
     collision_sequences::<F1024>(ctx, rep);
     rep.require("fingerprint_colliding_pairs", 20);
     rep.require("lattice_variant_keys", 10);
+    rep.require("semantic_extensions", 10);
     reserved_in_valid_basis::<F512>(ctx, ctx.sz(12, 200), rep);
     reserved_in_valid_basis::<F1024>(ctx, ctx.sz(3, 16), rep);
     rep.require("reserved_in_valid_basis_g", 2);
